@@ -187,13 +187,15 @@ def Iter.sizeHint (it : Iter) : Nat := it.iter.length / 2
 def Iter.count (it : Iter) : Nat := it.sizeHint
 def Iter.len (it : Iter) : Nat := it.sizeHint
 
--- src: rich_structure.rs:RichIter::nth   (`n : usize`; `n * 2` and `+ 2` are checked in a debug build)
+-- src: rich_structure.rs:RichIter::nth   (as of commit ed9f3f7: the guard is `len / 2 > n`, so the
+-- checked `n * 2`, `+ 1`, `+ 2` below it stay far from `usize::MAX`; they are modelled as checked anyway)
 def Iter.nth (it : Iter) (n : Nat) : Out (Option Record × Iter) :=
-  pmul64 "rich_structure.rs:270 n * 2" n 2 >>= fun n2 =>
-  padd64 "rich_structure.rs:270 n * 2 + 2" n2 2 >>= fun n22 =>
-  if it.iter.length ≥ n22 then
+  if it.iter.length / 2 > n then
+    pmul64 "rich_structure.rs:271 n * 2" n 2 >>= fun n2 =>
+    padd64 "rich_structure.rs:271 n * 2 + 1" n2 1 >>= fun n21 =>
+    padd64 "rich_structure.rs:272 n * 2 + 2" n2 2 >>= fun n22 =>
     idx "rich_structure.rs:271 self.iter[n * 2]" it.iter n2 >>= fun a =>
-    idx "rich_structure.rs:271 self.iter[n * 2 + 1]" it.iter (n2 + 1) >>= fun b =>
+    idx "rich_structure.rs:271 self.iter[n * 2 + 1]" it.iter n21 >>= fun b =>
     slice "rich_structure.rs:272 &self.iter[n * 2 + 2..]" it.iter n22 it.iter.length >>= fun rest =>
     .ok (some (Record.decode it.key a b), ⟨rest, it.key⟩)
   else
